@@ -131,24 +131,6 @@ fn scope(p: &P) -> Result<(), &'static str> {
     }
 }
 
-/// F14 (property C13, `write_long_bracket`): a string that takes the long-bracket path
-/// (>= 20 bytes, only graphic ASCII / space / newline, and >= 60 bytes or >= 6 newlines) and
-/// contains `]` may be closed early. Text-level failures on such documents are C13's.
-fn f14_region(p: &P) -> bool {
-    fn eligible(s: &[u8]) -> bool {
-        s.len() >= 20
-            && s.iter().all(|c| c.is_ascii_graphic() || *c == b' ' || *c == b'\n')
-            && (s.len() >= 60 || s.iter().filter(|c| **c == b'\n').count() >= 6)
-            && s.contains(&b']')
-    }
-    match p {
-        P::Str(s) => eligible(s.as_bytes()),
-        P::Arr(xs) => xs.iter().any(f14_region),
-        P::Obj(kvs) => kvs.iter().any(|(k, v)| f14_region(k) || f14_region(v)),
-        _ => false,
-    }
-}
-
 // ---------------------------------------------------------------------------------------
 // real code
 
@@ -442,13 +424,6 @@ impl<'a> Ctx<'a> {
             self.oracle(&case, in_h)
         };
         let mut oracle_failed = false;
-        let oracle = match oracle {
-            Err(_) if f14_region(&case.real.parsed) => {
-                self.report.hist("excluded", "text check failed in the F14 region (C13): long-bracket string containing ]");
-                Ok(())
-            }
-            other => other,
-        };
         if let Err((check, what)) = oracle {
             oracle_failed = true;
             let mut input = case.origin.clone();
@@ -693,9 +668,6 @@ fn bundle_case(ctx: &mut Ctx, fmt: Fmt, text: &str) {
             }
             ctx.report.count("bundle_checked", 1);
         }
-        _ if f14_region(&real.parsed) => {
-            ctx.report.hist("excluded", "text check failed in the F14 region (C13): long-bracket string containing ]")
-        }
         Ok(b) => {
             let what = format!("bundle inlines {} but convert emits {}", clip(&b), clip(&convert_expr));
             ctx.violation("oracle", "bundle-same-as-convert", what, input, true);
@@ -711,9 +683,6 @@ fn txt_case(ctx: &mut Ctx, content: &str) {
     let input = json!({"kind": "bundle", "format": "txt", "text": content});
     match bundle_expr("txt", content) {
         Ok(b) if b == expected => ctx.report.count("bundle_checked", 1),
-        _ if f14_region(&P::Str(content.to_owned())) => {
-            ctx.report.hist("excluded", "text check failed in the F14 region (C13): long-bracket string containing ]")
-        }
         Ok(b) => ctx.violation("oracle", "txt-is-the-file-content", format!("inlined {} expected {}", clip(&b), clip(&expected)), input, true),
         Err(e) => ctx.violation("oracle", "bundle-succeeds", e, input, true),
     }
